@@ -229,6 +229,23 @@ def run(ctx, rep):
                 # `match self.index { 1 => .., 0 => .., _ => clear }`: every value but 1 (and 0 = nothing seen) clears
                 others = [tb for v, tb in t['targets'] if v not in (0, 1)] + [t['otherwise']]
                 ok = all(any(c in IB.reach_from([o_]) for c in clears) for o_ in others)
+        if not ok and clears:
+            # the test is written in a form whose constant is not visible (`self.index == Some(1)` compares with a promoted
+            # constant through PartialEq): the weaker, form-independent condition - some test of the index has an arm from which
+            # every way out either discards the run or goes through a further test of the index (`if let Some(..)`, `is_empty`)
+            d3 = Deps(IB)
+            idx_sw = []
+            for bi in IB.reachable():
+                t = IB.blocks[bi]['term']
+                if t['k'] == 'switch' and ('field', 'index') in d3.of_operand(t['discr']):
+                    idx_sw.append(bi)
+            rets = set(IB.return_blocks())
+            for bi in idx_sw:
+                for arm in IB.succ(bi):
+                    reach = IB.reach_from([arm], cut_blocks=set(clears) | (set(idx_sw) - {bi}))
+                    if not (reach & rets):
+                        ok = True
+            weak = ok
         rep.oblige('T3.unfinished', IB.name, ok=ok and bool(clears), nontrivial=True)
         if not (ok and clears):
             rep.violation('T3', vkey('T3', IB.name, 'unfinished-run', ''), IB.loc(IB.span),
